@@ -160,7 +160,12 @@ func (ex *executor) overlapStep(idx int, st *Step) {
 	}
 
 	gate := &gatedBody{at: st.Gate, stalled: make(chan struct{}), release: make(chan struct{})}
-	ex.gate = gate
+	if st.ParkAt > 0 {
+		// a reader, parked between two of its file-system calls
+		ex.seam.Park = &seamGate{at: st.ParkAt - 1, stalled: gate.stalled, release: gate.release}
+	} else {
+		ex.gate = gate
+	}
 	var xa *Exchange
 	aDone := make(chan struct{})
 	go func() {
@@ -174,6 +179,7 @@ func (ex *executor) overlapStep(idx int, st *Step) {
 	case <-aDone:
 	}
 	ex.gate = nil
+	ex.seam.Park = nil
 
 	classA := classFromSnapshot(s0, &model.Request{Method: st.Method, Path: pathOfTarget(st.Target), H: stepHeaderMap(st)})
 	expected := copySnap(s0)
@@ -287,6 +293,13 @@ func (ex *executor) overlapStep(idx int, st *Step) {
 	}
 	if out := append(outsideBeforeStall, ex.seam.Outside...); len(out) > 0 {
 		ex.finding(Violation{Prop: "C03", Clause: "outside-access", Class: class, Msg: fmt.Sprintf("file-system calls left the served root: %s", strings.ReplaceAll(strings.Join(out, ", "), ex.w.Sandbox, "$SB")), Step: idx})
+	}
+	if st.Method == "GET" && xa.Resp.Status == 200 && !xa.RespCut {
+		// a complete answer: as many body bytes as it announces, whatever the
+		// other requests did to the resource between two of its steps
+		if cl := xa.Resp.H.Get("Content-Length"); cl != "" && cl != fmt.Sprint(len(xa.Resp.Body)) {
+			ex.finding(Violation{Prop: "C13", Clause: "incomplete-response", Class: class, Msg: fmt.Sprintf("GET %s was answered 200 with Content-Length %s and a body of %d bytes (meanwhile: %s)", st.Target, cl, len(xa.Resp.Body), strings.Join(did, "; ")), Step: idx})
+		}
 	}
 	if xa.BodyFailed && xa.Resp.Status/100 == 2 {
 		ex.finding(Violation{Prop: "C02", Clause: "ack-after-broken-body", Class: class, Msg: fmt.Sprintf("the body stream failed after %d of %d bytes (%s) but the request was answered %d", xa.Delivered, len(st.Body), xa.BodyFault.Kind, xa.Resp.Status), Step: idx})
@@ -445,6 +458,19 @@ func (g *gen) overlapRound() {
 		// refusal must leave what the others stored, and nothing else
 		a.Faults = nil
 		a.Gate = r.Intn(len(a.Body) + 1)
+	}
+	if r.Chance(0.15) {
+		// A is a reader: it is parked between two of its file-system calls
+		// (after it looked the resource up, before it opened or listed it, ...)
+		a.Method = rt.Pick(r, []string{"GET", "GET", "HEAD", "PROPFIND"})
+		a.Body, a.Faults, a.Headers, a.Gate, a.Chunk, a.Chunked = nil, nil, nil, 0, 0, false
+		if a.Method == "PROPFIND" {
+			a.set("Depth", rt.Pick(r, []string{"0", "1", "infinity"}))
+			if r.Chance(0.5) {
+				a.Target = g.spell(model.Parent(x))
+			}
+		}
+		a.ParkAt = 1 + r.Intn(6)
 	}
 	parent := model.Parent(x)
 	nb := 1 + r.Weighted([]int{5, 3, 2})
